@@ -146,13 +146,42 @@ def InbHlleCol : Prop :=
   ∀ (d : Int) (j p : Nat), 1 ≤ d → (j : Int) < hlle_j_hi d → (p : Int) < hlle_p_hi d j →
     InIdx (hlle_col_idx (hlleCt d j) p d) (hlle_yi_cols d (hlle_dp d))
 
--- (closed F-HLLE-CT)
+-- >>> OPEN F-HLLE-CT
+/-- witness: d = 3, outer iteration j = 2, p = 0 writes column 12 of a 10-column matrix
+    (replayed: `hlle N=17 D=3 d=3 k=12`) -/
+theorem inb_hlle_col_refuted : ¬ InbHlleCol := by
+  intro h
+  have := h 3 2 0 (by decide) (by decide) (by decide)
+  revert this
+  decide
+
+/-- what does hold: target_dimension ≤ 2 -/
+theorem inb_hlle_col_partial (d : Int) (j p : Nat) (hd : 1 ≤ d) (hd2 : d ≤ 2)
+    (hj : (j : Int) < hlle_j_hi d) (hp : (p : Int) < hlle_p_hi d j) :
+    InIdx (hlle_col_idx (hlleCt d j) p d) (hlle_yi_cols d (hlle_dp d)) := by
+  simp only [hlle_j_hi, hlle_p_hi] at hj hp
+  have hdcases : d = 1 ∨ d = 2 := by omega
+  rcases hdcases with rfl | rfl
+  · have hj0 : j = 0 := by omega
+    subst hj0
+    have hp0 : p = 0 := by omega
+    subst hp0
+    decide
+  · have hjc : j = 0 ∨ j = 1 := by omega
+    rcases hjc with rfl | rfl
+    · have hpc : p = 0 ∨ p = 1 := by omega
+      rcases hpc with rfl | rfl <;> decide
+    · have hp0 : p = 0 := by omega
+      subst hp0
+      decide
+-- <<< OPEN F-HLLE-CT
+/- >>> CLOSED F-HLLE-CT
 /-- every written column `Yi.col(ct + p + 1 + d)` of the loop nest lies inside the `1 + d + dp` columns of `Yi`
     (F-HLLE-CT repaired: `ct += target_dimension - j`) -/
 theorem inb_hlle_col : InbHlleCol := by
   intro d j p _ hj hp
   have hstep : ∀ ct d j, hlle_ct_step ct d j = ct + (d - j) := by
-    intro ct d j; simp only [hlle_ct_step]; omega
+    intro ct d j; unfold hlle_ct_step; omega
   have h := hlle_col_in_bounds_of_fixed_step hlle_ct_step hstep d j p
     (by simpa [hlle_j_hi] using hj) (by simpa [hlle_p_hi] using hp)
   have e : hlleCt d j = ctOf 0 hlle_ct_step d j := by rw [hlleCt_eq_ctOf]; rfl
@@ -160,6 +189,7 @@ theorem inb_hlle_col : InbHlleCol := by
   omega
 
 example : violatedSites { defaultConfig .hlle .brute .dense 17 3 with d := 3, k := 12 } = [] := by decide +kernel
+<<< CLOSED F-HLLE-CT -/
 
 /-- the same statement for the repaired step function, independent of the current tree -/
 theorem inb_hlle_col_after_fix (d : Int) (j p : Nat) (hj : (j : Int) < hlle_j_hi d) (hp : (p : Int) < hlle_p_hi d j) :
@@ -192,7 +222,19 @@ theorem hlle_dp_nonneg (d : Int) (hd : 0 ≤ d) : 0 ≤ hlle_dp d := by
 def InbHlleEigvec : Prop :=
   ∀ c : Config, validated c = true → c.method = .hlle → InCount (hlle_eigvec_rightCols c.d) c.k
 
--- (closed F-DIM-RANK)
+-- >>> OPEN F-DIM-RANK-LOCAL
+/-- witness N = 8, k = 3, d = 5 (replayed: `hlle N=8 D=3 d=5 k=3`) -/
+theorem inb_hlle_eigvec_rightCols_refuted : ¬ InbHlleEigvec := by
+  intro h
+  have := h { defaultConfig .hlle .brute .dense 8 3 with d := 5, k := 3 } (by decide +kernel) rfl
+  revert this; decide +kernel
+
+theorem inb_hlle_eigvec_rightCols_partial (c : Config) (h : validated c = true) (hdk : c.d ≤ c.k) :
+    InCount (hlle_eigvec_rightCols c.d) c.k := by
+  have := validated_d h
+  simp only [InCount, hlle_eigvec_rightCols]; omega
+-- <<< OPEN F-DIM-RANK-LOCAL
+/- >>> CLOSED F-DIM-RANK-LOCAL
 /-- validate() now bounds target_dimension by num_neighbors -/
 theorem inb_hlle_eigvec_rightCols : InbHlleEigvec := by
   intro c h hm
@@ -200,6 +242,7 @@ theorem inb_hlle_eigvec_rightCols : InbHlleEigvec := by
   rw [hm] at hv
   have : 1 ≤ c.d ∧ c.d < c.k + 1 := by simpa [validateMethod] using hv
   simp only [InCount, hlle_eigvec_rightCols]; omega
+<<< CLOSED F-DIM-RANK-LOCAL -/
 
 /-! ### LTSA (`tangent_weight_matrix`) -/
 
@@ -210,17 +253,28 @@ theorem inb_ltsa_g (d : Int) (hd : 0 ≤ d) : InCount (ltsa_g_rightCols d) (ltsa
 def InbLtsaEigvec : Prop :=
   ∀ c : Config, validated c = true → (c.method = .kltsa ∨ c.method = .lltsa) → InCount (ltsa_eigvec_rightCols c.d) c.k
 
--- (closed F-DIM-RANK)
+-- >>> OPEN F-DIM-RANK-LOCAL
+/-- witness N = 8, k = 3, d = 5 (replayed: `kltsa N=8 D=3 d=5 k=3`) -/
+theorem inb_ltsa_eigvec_rightCols_refuted : ¬ InbLtsaEigvec := by
+  intro h
+  have := h { defaultConfig .kltsa .brute .dense 8 3 with d := 5, k := 3 } (by decide +kernel) (Or.inl rfl)
+  revert this; decide +kernel
+
+theorem inb_ltsa_eigvec_rightCols_partial (c : Config) (h : validated c = true) (hdk : c.d ≤ c.k) :
+    InCount (ltsa_eigvec_rightCols c.d) c.k := by
+  have := validated_d h
+  simp only [InCount, ltsa_eigvec_rightCols]; omega
+-- <<< OPEN F-DIM-RANK-LOCAL
+/- >>> CLOSED F-DIM-RANK-LOCAL
 /-- validate() now bounds target_dimension by num_neighbors -/
 theorem inb_ltsa_eigvec_rightCols : InbLtsaEigvec := by
   intro c h hm
   have hv := validated_method h
   have : 1 ≤ c.d ∧ c.d < c.k + 1 := by
-    rcases hm with hm | hm <;> rw [hm] at hv
-    · simpa [validateMethod] using hv
-    · have : (1 ≤ c.d ∧ c.d < c.D + 1) ∧ 1 ≤ c.d ∧ c.d < c.k + 1 := by simpa [validateMethod] using hv
-      exact this.2
+    rcases hm with hm | hm <;> rw [hm] at hv <;>
+      (simp only [validateMethod, Bool.and_eq_true, decide_eq_true_eq] at hv; first | exact hv | exact hv.2)
   simp only [InCount, ltsa_eigvec_rightCols]; omega
+<<< CLOSED F-DIM-RANK-LOCAL -/
 
 /-! ### dense / randomized / generalized solvers -/
 
@@ -246,7 +300,19 @@ def InbPcaCols : Prop :=
   ∀ c : Config, validated c = true → c.method = .pca →
     InCount (dense_largest_rightCols c.d) c.D ∧ InCount (dense_largest_tail c.d) c.D
 
--- (closed F-DIM-RANK)
+-- >>> OPEN F-DIM-RANK-LINEAR
+/-- witness N = 8, D = 3, d = 5 (replayed: `pca N=8 D=3 d=5`) -/
+theorem inb_pca_rightCols_refuted : ¬ InbPcaCols := by
+  intro h
+  have := h { defaultConfig .pca .brute .dense 8 3 with d := 5 } (by decide +kernel) rfl
+  revert this; decide +kernel
+
+theorem inb_pca_rightCols_partial (c : Config) (h : validated c = true) (hdD : c.d ≤ c.D) :
+    InCount (dense_largest_rightCols c.d) c.D ∧ InCount (dense_largest_tail c.d) c.D := by
+  have := validated_d h
+  simp only [InCount, dense_largest_rightCols, dense_largest_tail]; omega
+-- <<< OPEN F-DIM-RANK-LINEAR
+/- >>> CLOSED F-DIM-RANK-LINEAR
 /-- validate() now bounds target_dimension by the feature dimension -/
 theorem inb_pca_rightCols : InbPcaCols := by
   intro c h hm
@@ -254,6 +320,7 @@ theorem inb_pca_rightCols : InbPcaCols := by
   rw [hm] at hv
   have : 1 ≤ c.d ∧ c.d < c.D + 1 := by simpa [validateMethod] using hv
   simp only [InCount, dense_largest_rightCols, dense_largest_tail]; omega
+<<< CLOSED F-DIM-RANK-LINEAR -/
 
 /-- landmark selection: `erase(begin + ⌊N·ratio⌋, end)` is inside the N-vector and keeps at least 3 landmarks
     (exact rational product; the `double` product is part of the partial label) -/
@@ -262,7 +329,8 @@ theorem inb_landmark_erase (c : Config) (h : validated c = true) (hm : c.method 
   have hN := validated_pos h
   have hv := validated_method h
   have hr : (3 : Rat) / ((c.N : Int) : Rat) ≤ c.ratio ∧ c.ratio ≤ 1 := by
-    rcases hm with hm | hm <;> rw [hm] at hv <;> simpa [validateMethod] using hv
+    rcases hm with hm | hm <;> rw [hm] at hv <;>
+      (simp only [validateMethod, Bool.and_eq_true, decide_eq_true_eq] at hv; first | exact hv | exact hv.1)
   have hb := landmark_count_bounds hN hr.1 hr.2
   simp only [InCount, landmark_vector_size]
   omega
@@ -272,7 +340,19 @@ def InbLandmarkCols : Prop :=
   ∀ c : Config, validated c = true → (c.method = .lmds ∨ c.method = .lisomap) →
     InCount (dense_largest_rightCols c.d) (nLandmarks c)
 
--- (closed F-LANDMARK-DIM)
+-- >>> OPEN F-LANDMARK-DIM
+/-- witness N = 8, ratio = 1/2 (4 landmarks), d = 5 (replayed: `lmds N=8 D=3 d=5 ratio=1/2`) -/
+theorem inb_landmark_rightCols_refuted : ¬ InbLandmarkCols := by
+  intro h
+  have := h { defaultConfig .lmds .brute .dense 8 3 with d := 5 } (by decide +kernel) (Or.inl rfl)
+  revert this; decide +kernel
+
+theorem inb_landmark_rightCols_partial (c : Config) (h : validated c = true) (hd : c.d ≤ nLandmarks c) :
+    InCount (dense_largest_rightCols c.d) (nLandmarks c) := by
+  have := validated_d h
+  simp only [InCount, dense_largest_rightCols]; omega
+-- <<< OPEN F-LANDMARK-DIM
+/- >>> CLOSED F-LANDMARK-DIM
 /-- validate() now bounds target_dimension by the number of landmarks -/
 theorem inb_landmark_rightCols : InbLandmarkCols := by
   intro c h hm
@@ -281,6 +361,7 @@ theorem inb_landmark_rightCols : InbLandmarkCols := by
     rcases hm with hm | hm <;> rw [hm] at hv <;>
       (have hh := hv; simp only [validateMethod, Bool.and_eq_true, decide_eq_true_eq] at hh; exact hh.2)
   simp only [InCount, dense_largest_rightCols, nLandmarks]; omega
+<<< CLOSED F-LANDMARK-DIM -/
 
 /-- triangulation: rows `i < n_landmarks` of the n_landmarks x d landmark embedding and columns `i < d` -/
 theorem inb_triangulate (nl d i : Int) (h0 : 0 ≤ i) :
@@ -297,14 +378,27 @@ theorem inb_dense_smallest_cols (c : Config) (h : validated c = true) :
 /-- FULL STATEMENT (false, F-EIG-SEGMENT): the eigenvalue slice `segment(start, len)` lies inside the N eigenvalues -/
 def InbDenseSegment : Prop :=
   ∀ c : Config, validated c = true →
-    InBlock (dense_segment_start c.d skip_SmallestEigenvalues) (dense_segment_len c.d skip_SmallestEigenvalues) c.N
+    InBlock (dense_segment_start c.d skip_SmallestEigenvalues) (dense_segment_len c.d skip_SmallestEigenvalues c.N) c.N
 
--- (closed F-EIG-SEGMENT)
+-- >>> OPEN F-EIG-SEGMENT
+/-- witness N = 5, d = 4: `segment(1, 5)` of 5 eigenvalues (replayed: `klle N=5 D=3 d=4 k=3`) -/
+theorem inb_dense_segment_refuted : ¬ InbDenseSegment := by
+  intro h
+  have := h { defaultConfig .klle .brute .dense 5 3 with d := 4, k := 3 } (by decide +kernel)
+  revert this; decide +kernel
+
+theorem inb_dense_segment_partial (c : Config) (h : validated c = true) (hd : c.d + 2 ≤ c.N) :
+    InBlock (dense_segment_start c.d skip_SmallestEigenvalues) (dense_segment_len c.d skip_SmallestEigenvalues c.N) c.N := by
+  have := validated_d h
+  simp only [InBlock, dense_segment_start, dense_segment_len, skip_SmallestEigenvalues]; omega
+-- <<< OPEN F-EIG-SEGMENT
+/- >>> CLOSED F-EIG-SEGMENT
 /-- the eigenvalue slice `segment(skip, target_dimension)` lies inside the N eigenvalues -/
 theorem inb_dense_segment : InbDenseSegment := by
   intro c h
   have := validated_d h
   simp only [InBlock, dense_segment_start, dense_segment_len, skip_SmallestEigenvalues]; omega
+<<< CLOSED F-EIG-SEGMENT -/
 
 /-- generalized problem of Laplacian eigenmaps (N x N, skip from the strategy): columns are fine … -/
 theorem inb_gen_le_cols (c : Config) (h : validated c = true) :
@@ -316,21 +410,47 @@ theorem inb_gen_le_cols (c : Config) (h : validated c = true) :
 /-- … FULL STATEMENT (false, F-EIG-SEGMENT, generalized file): the eigenvalue slice -/
 def InbGenSegmentLE : Prop :=
   ∀ c : Config, validated c = true →
-    InBlock (gen_segment_start c.d gen_sparse_diag_skip) (gen_segment_len c.d gen_sparse_diag_skip) c.N
+    InBlock (gen_segment_start c.d gen_sparse_diag_skip) (gen_segment_len c.d gen_sparse_diag_skip c.N) c.N
 
--- (closed F-EIG-SEGMENT)
+-- >>> OPEN F-EIG-SEGMENT
+/-- witness N = 5, d = 4 (replayed: `le N=5 D=3 d=4 k=3`) -/
+theorem inb_gen_segment_refuted : ¬ InbGenSegmentLE := by
+  intro h
+  have := h { defaultConfig .le .brute .dense 5 3 with d := 4, k := 3 } (by decide +kernel)
+  revert this; decide +kernel
+
+theorem inb_gen_segment_partial (c : Config) (h : validated c = true) (hd : c.d + 2 ≤ c.N) :
+    InBlock (gen_segment_start c.d gen_sparse_diag_skip) (gen_segment_len c.d gen_sparse_diag_skip c.N) c.N := by
+  have := validated_d h
+  simp only [InBlock, gen_segment_start, gen_segment_len, gen_sparse_diag_skip, skip_SmallestEigenvalues]; omega
+-- <<< OPEN F-EIG-SEGMENT
+/- >>> CLOSED F-EIG-SEGMENT
 theorem inb_gen_segment : InbGenSegmentLE := by
   intro c h
   have := validated_d h
   simp only [InBlock, gen_segment_start, gen_segment_len, gen_sparse_diag_skip, skip_SmallestEigenvalues]; omega
+<<< CLOSED F-EIG-SEGMENT -/
 
 /-- FULL STATEMENT (false, F-DIM-RANK): NPE / LPP / LLTSA solve a D x D generalized problem (skip = 0) -/
 def InbGenLinearCols : Prop :=
   ∀ c : Config, validated c = true → (c.method = .npe ∨ c.method = .lpp ∨ c.method = .lltsa) →
     InCount (gen_smallest_leftCols c.d gen_dense_dense_skip) c.D ∧
-    InBlock (gen_segment_start c.d gen_dense_dense_skip) (gen_segment_len c.d gen_dense_dense_skip) c.D
+    InBlock (gen_segment_start c.d gen_dense_dense_skip) (gen_segment_len c.d gen_dense_dense_skip c.D) c.D
 
--- (closed F-DIM-RANK)
+-- >>> OPEN F-DIM-RANK-LINEAR
+/-- witness N = 8, D = 2, d = 5 (replayed: `npe N=8 D=2 d=5 k=3`) -/
+theorem inb_gen_linear_cols_refuted : ¬ InbGenLinearCols := by
+  intro h
+  have := h { defaultConfig .npe .brute .dense 8 2 with d := 5, k := 3 } (by decide +kernel) (Or.inl rfl)
+  revert this; decide +kernel
+
+theorem inb_gen_linear_cols_partial (c : Config) (h : validated c = true) (hdD : c.d ≤ c.D) :
+    InCount (gen_smallest_leftCols c.d gen_dense_dense_skip) c.D ∧
+    InBlock (gen_segment_start c.d gen_dense_dense_skip) (gen_segment_len c.d gen_dense_dense_skip c.D) c.D := by
+  have := validated_d h
+  simp only [InCount, InBlock, gen_smallest_leftCols, gen_segment_start, gen_segment_len, gen_dense_dense_skip]; omega
+-- <<< OPEN F-DIM-RANK-LINEAR
+/- >>> CLOSED F-DIM-RANK-LINEAR
 /-- validate() of NPE / LPP / LLTSA now bounds target_dimension by the feature dimension -/
 theorem inb_gen_linear_cols : InbGenLinearCols := by
   intro c h hm
@@ -339,6 +459,7 @@ theorem inb_gen_linear_cols : InbGenLinearCols := by
     rcases hm with hm | hm | hm <;> rw [hm] at hv <;>
       (have hh := hv; simp only [validateMethod, Bool.and_eq_true, decide_eq_true_eq] at hh; first | exact hh | exact hh.1 | exact hh.2)
   simp only [InCount, InBlock, gen_smallest_leftCols, gen_segment_start, gen_segment_len, gen_dense_dense_skip]; omega
+<<< CLOSED F-DIM-RANK-LINEAR -/
 
 /-- randomized solver: every column selection is inside the sketch of `d + skip` columns, for any d, skip ≥ 0 -/
 theorem inb_randomized (d skip : Int) (hd : 0 ≤ d) (hs : 0 ≤ skip) :
@@ -380,10 +501,11 @@ theorem spe_floor_term (k : Int) (u : Rat) (hk : 1 ≤ k) (hu0 : 0 ≤ u) (hu1 :
     have : (u * ((spe_rand_span k : Int) : Rat)).floor ≤ k - 1 := by exact_mod_cast h3
     omega
 
-/-- `indices[nupdates + j]` and the second half `[nupdates, 2 nupdates)` inside the N indices once `nupdates ≤ N/2` -/
+/-- the slot that receives the chosen partner, and the second half `[nupdates, 2 nupdates)` of the N indices, once
+    `nupdates ≤ N/2` -/
 theorem inb_spe_indices (N nu j : Int) (hnu0 : 0 ≤ nu) (hnu : nu ≤ spe_nupdates_max N) (hj0 : 0 ≤ j) (hj : j < nu) :
-    InIdx (spe_indices_write nu j) (spe_indices_size N) ∧ InBlock (spe_ind2_start nu) nu (spe_indices_size N) := by
-  simp only [InIdx, InBlock, spe_indices_write, spe_indices_size, spe_ind2_start, spe_nupdates_max] at *
+    InIdx (spe_indices_write nu j) (spe_partner_size N nu) ∧ InBlock (spe_ind2_start nu) nu (spe_indices_size N) := by
+  simp only [InIdx, InBlock, spe_indices_write, spe_indices_size, spe_partner_size, spe_ind2_start, spe_nupdates_max] at *
   omega
 
 /-! ### t-SNE -/
@@ -413,7 +535,17 @@ theorem inb_tsne_posf_partial (c : Config) (hdims : qt_no_dims ≤ c.d)
   rw [e]
   exact ⟨h1, h1, h2⟩
 
--- (closed F-TSNE-DIMS)
+-- >>> OPEN F-TSNE-DIMS
+/-- witness N = 8, target_dimension = 1, θ = 1/2, last sample, second coordinate
+    (replayed: `tsne N=8 D=3 d=1 perp=2 theta=1/2`) -/
+theorem inb_tsne_posf_refuted : ¬ InbTsneBH := by
+  intro h
+  have := h { defaultConfig .tsne .brute .dense 8 3 with d := 1, perp := 2 } (by decide +kernel) rfl (by decide +kernel)
+    7 1 (by decide) (by decide) (by decide) (by decide +kernel)
+  revert this; decide +kernel
+
+-- <<< OPEN F-TSNE-DIMS
+/- >>> CLOSED F-TSNE-DIMS
 /-- validate() now requires target_dimension = 2 when θ > 0 -/
 theorem inb_tsne_posf : InbTsneBH := by
   intro c h hm hth n dd hn0 hn hd0 hd
@@ -428,6 +560,7 @@ theorem inb_tsne_posf : InbTsneBH := by
     · exact absurd (lt_of_le_of_ne hth0 (Ne.symm hth)) h1
     · exact h1.1
   exact inb_tsne_posf_partial c (by simpa [qt_no_dims] using hd2) n dd hn0 hn hd0 hd
+<<< CLOSED F-TSNE-DIMS -/
 
 /-- FULL STATEMENT (false, new — also hit with θ = 0): the exact error evaluation reads `Y` as N x 2 -/
 def InbTsneExactError : Prop :=
@@ -443,11 +576,21 @@ theorem inb_tsne_exact_error_partial (c : Config) (hdims : tsne_exact_error_dims
   have e : c.d * c.N = c.N * c.d := by ring
   rw [e]; exact h1
 
--- (closed F-TSNE-DIMS)
+-- >>> OPEN F-TSNE-DIMS
+/-- witness N = 8, target_dimension = 1, θ = 0 (replayed: `tsne N=8 D=3 d=1 perp=2 theta=0`) -/
+theorem inb_tsne_exact_error_refuted : ¬ InbTsneExactError := by
+  intro h
+  have := h { defaultConfig .tsne .brute .dense 8 3 with d := 1, perp := 2, theta := 0 } (by decide +kernel) rfl (by decide +kernel)
+    7 1 (by decide) (by decide) (by decide) (by decide +kernel)
+  revert this; decide +kernel
+
+-- <<< OPEN F-TSNE-DIMS
+/- >>> CLOSED F-TSNE-DIMS
 /-- the exact error evaluation now reads `Y` with its own width -/
 theorem inb_tsne_exact_error : InbTsneExactError := by
   intro c _ _ _ n dd hn0 hn hd0 hd
   exact inb_tsne_exact_error_partial c (by simp [tsne_exact_error_dims]) n dd hn0 hn hd0 hd
+<<< CLOSED F-TSNE-DIMS -/
 
 /-- sparse similarities: `K = ⌊3·perplexity⌋ ≤ N - 1` neighbours are requested (+ the point itself), so
     `distances[m+1]`, `cur_P[m]`, `col_P[n*K + m]` are in range for `m < K` -/
@@ -459,9 +602,8 @@ theorem inb_tsne_knn (c : Config) (h : validated c = true) (hm : c.method = .tsn
   have hv := validated_method h
   rw [hm] at hv
   have hp : 0 ≤ c.perp ∧ c.perp ≤ (((c.N : Int) : Rat) - 1) / 3 := by
-    have : (0 ≤ c.perp ∧ c.perp ≤ (((c.N : Int) : Rat) - 1) / 3) ∧ 0 ≤ c.theta := by
-      simpa [validateMethod] using hv
-    exact this.1
+    simp only [validateMethod, Bool.and_eq_true, decide_eq_true_eq] at hv
+    first | exact hv.1 | exact hv.1.1
   have hK := tsne_K_bounds hp.1 hp.2
   intro K
   simp only [InCount, InIdx, tsne_knn_requested, tsne_dist_idx, tsne_curP_size, tsne_rowP_stride, tsne_colP_size]
@@ -477,7 +619,19 @@ def InbMsRows : Prop :=
   ∀ c : Config, validated c = true → c.method = .ms →
     InCount (ms_row_hi c.d) c.D ∧ InCount (ms_topRows c.d) c.D ∧ InCount (ms_bottomRows c.D c.d) c.D
 
--- (closed F-DIM-RANK)
+-- >>> OPEN F-DIM-RANK-LOCAL
+/-- witness N = 8, D = 2, d = 3 (replayed: `ms N=8 D=2 d=3 k=3`) -/
+theorem inb_ms_rows_refuted : ¬ InbMsRows := by
+  intro h
+  have := h { defaultConfig .ms .brute .dense 8 2 with d := 3, k := 3 } (by decide +kernel) rfl
+  revert this; decide +kernel
+
+theorem inb_ms_rows_partial (c : Config) (h : validated c = true) (hdD : c.d ≤ c.D) :
+    InCount (ms_row_hi c.d) c.D ∧ InCount (ms_topRows c.d) c.D ∧ InCount (ms_bottomRows c.D c.d) c.D := by
+  have := validated_d h
+  simp only [InCount, ms_row_hi, ms_topRows, ms_bottomRows]; omega
+-- <<< OPEN F-DIM-RANK-LOCAL
+/- >>> CLOSED F-DIM-RANK-LOCAL
 /-- validate() now bounds target_dimension by the feature dimension -/
 theorem inb_ms_rows : InbMsRows := by
   intro c h hm
@@ -487,11 +641,19 @@ theorem inb_ms_rows : InbMsRows := by
   simp only [validateMethod, Bool.and_eq_true, decide_eq_true_eq] at hh
   have := hh.2
   simp only [InCount, ms_row_hi, ms_topRows, ms_bottomRows]; omega
+<<< CLOSED F-DIM-RANK-LOCAL -/
 
 /-! ### the executable site evaluator agrees with the statements above on the witnesses -/
 
--- (closed F-EIG-SEGMENT)
+-- >>> OPEN F-HLLE-CT
+example : violatedSites { defaultConfig .hlle .brute .dense 17 3 with d := 3, k := 12 } = ["hlle_col"] := by decide +kernel
+-- <<< OPEN F-HLLE-CT
+-- >>> OPEN F-EIG-SEGMENT
+example : violatedSites { defaultConfig .klle .brute .dense 5 3 with d := 4, k := 3 } = ["dense_segment"] := by decide +kernel
+-- <<< OPEN F-EIG-SEGMENT
+/- >>> CLOSED F-EIG-SEGMENT
 example : violatedSites { defaultConfig .klle .brute .dense 5 3 with d := 4, k := 3 } = [] := by decide +kernel
+<<< CLOSED F-EIG-SEGMENT -/
 example : violatedSites { defaultConfig .mds .brute .dense 17 3 with d := 16 } = [] := by decide +kernel
 
 /-! ## §3 exceptions, foreign throws, process-terminating calls -/
@@ -501,10 +663,21 @@ example : violatedSites { defaultConfig .mds .brute .dense 17 3 with d := 16 } =
 def FrontEndErrorsDocumented : Prop :=
   ∀ p ∈ rethrowMap, p.2 ∈ documentedThrows ∨ p.2 = emptyInputThrows
 
--- (closed F-DOC-WPTE)
+-- >>> OPEN F-DOC-WPTE
+/-- witness: `stichwort::wrong_parameter_type_error` is rethrown as `tapkee::wrong_parameter_type_error`, which the
+    `@throw` block does not mention (replayed: `wrongtype=1`) -/
+theorem front_end_errors_documented_refuted : ¬ FrontEndErrorsDocumented := by
+  unfold FrontEndErrorsDocumented; decide
+
+theorem front_end_errors_documented_partial :
+    ∀ p ∈ rethrowMap, p.2 ≠ "wrong_parameter_type_error" → p.2 ∈ documentedThrows ∨ p.2 = emptyInputThrows := by
+  decide
+-- <<< OPEN F-DOC-WPTE
+/- >>> CLOSED F-DOC-WPTE
 /-- every class embed.hpp rethrows is in its documented `@throw` list -/
 theorem front_end_errors_documented : FrontEndErrorsDocumented := by
   unfold FrontEndErrorsDocumented; decide
+<<< CLOSED F-DOC-WPTE -/
 
 /-- every `throw` under include/tapkee raises a documented class or the empty-input error, except exactly one
     foreign throw: `std::runtime_error("Wrong size")` in manifold sculpting, guarded by `(end - begin) != n` -/
